@@ -138,6 +138,10 @@ class CallMixin(object):
         raise OutsideSubset('call of %s' % type(fv).__name__)
 
     def call_specfn(self, name, args, kwargs, st):
+        if name in self.reg.uninterp:
+            psorts, rsort = self.reg.uninterp[name]
+            f = z3.Function('u_' + name, *([zsort(p) for p in psorts] + [zsort(rsort)]))
+            return SV(rsort, f(*[coerce(a, p).t for a, p in zip(args, psorts)]))
         fn = self.reg.specfns[name]
         if name in self.reg.spec_sorts:
             return self.call_rec_specfn(name, fn, args, st)
@@ -196,6 +200,7 @@ class CallMixin(object):
             s2.env = dict((p, SV(s, t)) for p, s, t in zip(params, psorts, formals))
             saved_mode = self.spec_mode
             self.spec_mode += 1
+            self._defining_rec = True
             self.rec_formals = getattr(self, 'rec_formals', {})
             self.rec_formals[name] = hformals
             try:
@@ -203,12 +208,33 @@ class CallMixin(object):
                 res = coerce(self.ev(body[-1].value, s2), rsort)
             finally:
                 self.spec_mode = saved_mode
+                self._defining_rec = False
             # s2.pc only holds type-invariant facts about the formals (allocatedness of references read from the heap): not needed
             z3.RecAddDefinition(f, formals + hformals, res.t)
         f, hps, _ = self.defined_recs[key]
         hargs = [self.heap_arrays(st, hk)[suf] for hk, suf, _ in hps]
         zargs = [coerce(a, s).t for a, s in zip(args, psorts)]
-        return SV(rsort, f(*(zargs + hargs)))
+        app = f(*(zargs + hargs))
+        unfolding = self.__dict__.setdefault('_unfolding', set())
+        if name not in unfolding and not getattr(self, '_defining_rec', False):
+            # one explicit unfolding at the actual arguments (the solver's own unfolding of recursive definitions is lazy and
+            # often too late for the induction step of a loop invariant)
+            unfolding.add(name)
+            try:
+                params = [a.arg for a in fn.args.args]
+                saved = st.env
+                st.env = dict((p, coerce(a, s)) for p, a, s in zip(params, args, psorts))
+                self.spec_mode += 1
+                try:
+                    body = [b for b in fn.body if not (isinstance(b, ast.Expr) and isinstance(b.value, ast.Constant))]
+                    val = coerce(self.ev(body[-1].value, st), rsort)
+                finally:
+                    self.spec_mode -= 1
+                    st.env = saved
+                st.assume(app == val.t)
+            finally:
+                unfolding.discard(name)
+        return SV(rsort, app)
 
     def call_closure(self, c, args, kwargs, st):
         node = c.node
@@ -622,6 +648,10 @@ class CallMixin(object):
     def use_case_axioms(self, st, term):
         seen = self.__dict__.setdefault('_case_terms', set())
         k = term.sexpr()
+        if not seen:
+            qs = z3.String('case_s')
+            self.hyp_axioms += [z3.ForAll([qs], z3.And(case_axioms(qs)[:2] + case_axioms(qs)[4:5]), patterns=[U(qs)]),
+                                z3.ForAll([qs], z3.And(case_axioms(qs)[1:2] + case_axioms(qs)[5:6]), patterns=[L(qs)])]
         if k not in seen:
             seen.add(k)
             self.hyp_axioms += case_axioms(term)
